@@ -141,7 +141,7 @@ theorem mem_steps_later (q p : Ctx) :
     subst a1 a2 b
     exact ⟨rfl, (mem_splits _ _ _).1 hm⟩
   · rintro ⟨a, h⟩
-    simp only at a; subst a
+    subst a
     exact ⟨(qe, qs), (mem_splits _ _ _).2 h, rfl⟩
 
 /-- `q` is reachable from `q'` by zero or more moves of any kind: its ancestors are among those of `q'` -/
@@ -211,5 +211,81 @@ theorem desc_of_any {q2' q2 qD : Ctx} (hr : anyRel q2' q2)
   · exact List.IsSuffix.trans ((mem_steps_desc _ _).1 h) hr
   · have := (mem_steps_child _ _).1 h
     unfold anyRel at hr; rw [this] at hr; exact hr
+
+
+/-! ### what a skipped prefix of the subselector does to the anchor -/
+
+theorem skip_prefix (d : Compound) (brest : Complex) (p : Ctx) :
+    ∀ (n : Nat) (sk : Complex) (q : Ctx), sk.length ≤ n → LX (sk ++ .compound d :: brest) q p →
+      ∃ qD, LX (.compound d :: brest) qD p ∧ anyRel qD q ∧ (sibChain sk = true → sibRel qD q) ∧
+        (sk = [] → qD = q) := by
+  intro n
+  induction n with
+  | zero =>
+    intro sk q hl h
+    have : sk = [] := List.eq_nil_of_length_eq_zero (Nat.le_zero.1 hl)
+    subst this
+    exact ⟨q, h, anyRel_refl q, fun _ => sibRel_refl q, fun _ => rfl⟩
+  | succ n ih =>
+    intro sk q hl h
+    match sk, hl, h with
+    | [], _, h => exact ⟨q, h, anyRel_refl q, fun _ => sibRel_refl q, fun _ => rfl⟩
+    | .comb cb :: _, _, h => exact absurd h (LX_comb_head _ _ _ _)
+    | [.compound c], _, h =>
+      simp only [List.singleton_append] at h
+      obtain ⟨_, q2, hq, hl2⟩ := (LX_desc _ _ _ _ _).1 h
+      exact ⟨q2, hl2, step_anyRel hq, by simp [sibChain], by simp⟩
+    | .compound c :: .comb cb :: sk', hl, h =>
+      simp only [List.cons_append] at h
+      obtain ⟨_, q2, hq, hl2⟩ := (LX_comb _ _ _ _ _).1 h
+      have hlen : sk'.length ≤ n := by simp only [List.length_cons] at hl; omega
+      obtain ⟨qD, h1, h2, h3, _⟩ := ih sk' q2 hlen hl2
+      refine ⟨qD, h1, anyRel_trans h2 (step_anyRel hq), ?_, by simp⟩
+      intro hs
+      simp only [sibChain, Bool.and_eq_true, bne_iff_ne, ne_eq] at hs
+      exact sibRel_trans (h3 hs.2) (step_sibRel hs.1 hq)
+    | .compound c :: .compound c' :: sk', hl, h =>
+      simp only [List.cons_append] at h
+      obtain ⟨_, q2, hq, hl2⟩ := (LX_desc _ _ _ _ _).1 h
+      have hlen : (Component.compound c' :: sk').length ≤ n := by simp only [List.length_cons] at hl ⊢; omega
+      obtain ⟨qD, h1, h2, _, _⟩ := ih (.compound c' :: sk') q2 hlen (by simpa using hl2)
+      exact ⟨qD, h1, anyRel_trans h2 (step_anyRel hq), by simp [sibChain], by simp⟩
+
+theorem relOK_of_skip {prev : Option Rel} {sk : Complex} {qD q : Ctx} (hok : okSkip prev sk = true)
+    (h2 : anyRel qD q) (h3 : sibChain sk = true → sibRel qD q) (h4 : sk = [] → qD = q) : RelOK prev qD q := by
+  cases prev with
+  | none => trivial
+  | some r =>
+    cases r with
+    | desc => exact h2
+    | child => exact h4 (by simpa [okSkip] using hok)
+    | next => exact h4 (by simpa [okSkip] using hok)
+    | later => exact h3 (by simpa [okSkip] using hok)
+
+theorem scan_spec (sup : Compound → Compound → Complex → Bool) (c1 : Compound) :
+    ∀ (b sk0 sk : Complex) (d : Compound) (brest : Complex), scan sup c1 sk0 b = some (sk, d, brest) →
+      ∃ sk', sk = sk0 ++ sk' ∧ b = sk' ++ .compound d :: brest ∧ sup c1 d (sk.drop 1) = true ∧ brest ≠ [] := by
+  intro b
+  induction b with
+  | nil => intro sk0 sk d brest h; simp [scan] at h
+  | cons y tl ih =>
+    intro sk0 sk d brest h
+    unfold scan at h
+    split at h
+    · cases h
+    · rename_i x xs
+      split at h
+      · rename_i d'
+        split at h
+        · rename_i hs
+          injection h with h; injection h with h1 h2; injection h2 with h2 h3
+          subst h1 h2 h3
+          exact ⟨[], by simp, by simp, hs, by simp⟩
+        · obtain ⟨sk', e1, e2, e3, e4⟩ := ih _ _ _ _ h
+          exact ⟨.compound d' :: sk', by simp [e1], by simp [e2], e3, e4⟩
+      · rename_i c
+        obtain ⟨sk', e1, e2, e3, e4⟩ := ih _ _ _ _ h
+        exact ⟨.comb c :: sk', by simp [e1], by simp [e2], e3, e4⟩
+
 
 end Grass.Selector
